@@ -20,7 +20,7 @@ from sx import nomsem, sym, replay
 from sx.sym import And, Or, Not
 
 # known-finding classes -> reference relaxation (lenient side only)
-C02_CLASSES = ["name-first-char", "dup-attr", "pe-in-entity-value"]
+C02_CLASSES = ["name-first-char", "pe-in-entity-value"]
 
 ALPHABET = "<>/=&;#!?-[]'\" \n\tax1:.%()|,*+"
 
@@ -226,6 +226,7 @@ def templates(tier):
     T.append(("two-roots", ["<r", 2, ">", h, "<", 3, ">"], None))
     T.append(("attrs", ["<r a", 1, "=\"", 2, "\" ", 2, "='", 2, "'", 2, ">"], None))
     T.append(("attrs-sep", ["<r a='x'", 2, "b=\"y\"", 2, "c='z'", 2, ">", 4], None))
+    T.append(("attrs-uniq", ["<r ", 2, "='' ", 2, "='' ", 2, "=''/>"], None))
     T.append(("pi-comment", ["<r><?", h, "?><!--", h, "--></r>"], None))
     T.append(("cdata", ["<r><![CDATA[", h, "]]>", h, "</r>"], None))
     if tier == "thorough":
